@@ -5,7 +5,7 @@ type modItem struct {
 	Item
 }
 
-var fingerprintDirs = []string{"net/packet", "net", "net/CFB8", "level", "save/region", "nbt", "nbt/dynbt", "offline", "net/queue", "chat", "bot", "server/auth", "server/command", "yggdrasil/user", "server"}
+var fingerprintDirs = []string{"net/packet", "net", "net/CFB8", "level", "save/region", "nbt", "nbt/dynbt", "offline", "net/queue", "chat", "bot", "server/auth", "server/command", "yggdrasil/user", "server", "registry"}
 
 // The whitelist: every item is regenerated from /repo on every run.
 var items = []modItem{
@@ -124,4 +124,10 @@ var items = []modItem{
 	{"Chat", Item{Dir: "chat", Kind: "tags", Func: "translateMsg", Name: "translateMsg_tags"}},
 	{"Chat", Item{Dir: "chat", Kind: "tags", Func: "ClickEvent", Name: "ClickEvent_tags"}},
 	{"Chat", Item{Dir: "chat", Kind: "tags", Func: "HoverEvent", Name: "HoverEvent_tags"}},
+	// ---- C08: the reject conditions for negative length prefixes outside net/packet/types.go ----
+	{"Level", Item{Dir: "level", Kind: "cond", Recv: "BitStorage", Func: "ReadFrom", Err: "negative", Name: "BitStorage_ReadFrom_negLen"}},
+	{"Registry", Item{Dir: "registry", Kind: "cond", Recv: "Registry", Func: "ReadFrom", Err: "registry: negative length", Name: "Registry_ReadFrom_negLen"}},
+	{"Registry", Item{Dir: "registry", Kind: "cond", Recv: "Registry", Func: "ReadTagsFrom", Err: "registry: negative tag count", Name: "Registry_ReadTagsFrom_negCount"}},
+	{"Registry", Item{Dir: "registry", Kind: "cond", Recv: "Registry", Func: "ReadTagsFrom", Err: "registry: negative tag length", Name: "Registry_ReadTagsFrom_negLen"}},
+	{"Registry", Item{Dir: "registry", Kind: "cond", Recv: "Registry", Func: "ReadTagsFrom", Err: "invalid id", Name: "Registry_ReadTagsFrom_badId"}},
 }
